@@ -545,6 +545,7 @@ fn c26_mixed_sizes(seeds: u64, steps: usize) -> i32 {
 /// Witness class for C26: leaves emptied by deletes (deletes never merge or unlink pages).  `n` distinct
 /// keys of `key_len` bytes; a middle range is deleted, then the lower bound of every key and the scan that
 /// follows it are compared with the model; then a prefix is deleted and the scan from the start is compared.
+fn gcd(a: usize, b: usize) -> usize { if b == 0 { a } else { gcd(b, a % b) } }
 fn c26_empty_leaves(n: usize, key_len: usize) -> i32 {
     use nervusdb_storage::index::btree::BTree;
     use nervusdb_storage::pager::Pager;
@@ -555,8 +556,18 @@ fn c26_empty_leaves(n: usize, key_len: usize) -> i32 {
         let mut t = BTree::create(&mut pager).map_err(|e| e.to_string())?;
         let mk = |i: usize| { let mut k = vec![b'k'; key_len]; k[0..8].copy_from_slice(&(i as u64).to_be_bytes()); k };
         let mut live = vec![true; n];
-        for i in 0..n { t.insert(&mut pager, &mk(i), i as u64).map_err(|e| format!("insert {i}: {e}"))?; }
+        // insertion order: a fixed permutation (stride coprime to n) so that splits happen all over the tree, not only at its right edge
+        let stride = { let mut s = (n * 5 / 8).max(1); while gcd(s, n) != 1 { s += 1; } s };
+        for j in 0..n { let i = (j * stride) % n; t.insert(&mut pager, &mk(i), i as u64).map_err(|e| format!("insert {i}: {e}"))?; }
         let mut checks = 0usize;
+        // before any delete: a lookup of every stored key finds that key (descent through every internal level)
+        for i in 0..n {
+            let mut c = t.cursor_lower_bound(&pager, &mk(i)).map_err(|e| e.to_string())?;
+            let ok = c.is_valid().map_err(|e| e.to_string())? && c.payload().map_err(|e| e.to_string())? == i as u64;
+            if !ok { return Err(format!("lookup of stored key {i} (of {n} keys, {key_len} bytes each) does not land on its entry")); }
+            if !t.delete(&mut pager, &mk(i), u64::MAX).map(|b| !b).map_err(|e| e.to_string())? { return Err(format!("delete of a pair that is not stored (key {i}, payload MAX) returned true")); }
+            checks += 1;
+        }
         for (lo, hi) in [(n / 3, 3 * n / 4), (0, n / 3)] {
             for i in lo..hi {
                 if !t.delete(&mut pager, &mk(i), i as u64).map_err(|e| format!("delete {i}: {e}"))? { return Err(format!("delete of stored key {i} returned false")); }
@@ -567,7 +578,8 @@ fn c26_empty_leaves(n: usize, key_len: usize) -> i32 {
                 let start = if from == n { let mut k = mk(n - 1); k.push(0); k } else { mk(from) };
                 let mut c = t.cursor_lower_bound(&pager, &start).map_err(|e| e.to_string())?;
                 let mut got = vec![];
-                while c.is_valid().map_err(|e| e.to_string())? { got.push(c.payload().map_err(|e| e.to_string())?); if !c.advance().map_err(|e| e.to_string())? { break; } }
+                while c.is_valid().map_err(|e| e.to_string())? && (n <= 1000 || got.len() < 12) { got.push(c.payload().map_err(|e| e.to_string())?); if !c.advance().map_err(|e| e.to_string())? { break; } }
+                let want: Vec<u64> = if n <= 1000 { want } else { want.into_iter().take(12).collect() };
                 if got != want { return Err(format!("after deleting keys {lo}..{hi} of {n}: scan from key {from} returned {} entries (first {:?}), {} larger-or-equal entries are stored (first {:?})", got.len(), got.first(), want.len(), want.first())); }
                 checks += 1;
             }
@@ -814,8 +826,8 @@ fn main() {
         Some("c27_key_samples") => c27_key_samples(),
         Some("c18_ownership_mix_quick") => c18_ownership_mix(6, 60),
         Some("c18_ownership_mix_thorough") => c18_ownership_mix(30, 120),
-        Some("c26_empty_leaves_quick") => { let a = c26_empty_leaves(120, 1000); if a != 0 { a } else { c26_empty_leaves(900, 24) } }
-        Some("c26_empty_leaves_thorough") => { let mut rc = 0; for (n, l) in [(120usize, 1000usize), (900, 24), (400, 300), (3000, 16), (60, 2500)] { if rc == 0 { rc = c26_empty_leaves(n, l); } } rc }
+        Some("c26_empty_leaves_quick") => { let mut rc = 0; for (n, l) in [(120usize, 1000usize), (900, 24), (2500, 300)] { if rc == 0 { rc = c26_empty_leaves(n, l); } } rc }
+        Some("c26_empty_leaves_thorough") => { let mut rc = 0; for (n, l) in [(120usize, 1000usize), (900, 24), (400, 300), (3000, 16), (60, 2500), (6000, 300), (1500, 1200)] { if rc == 0 { rc = c26_empty_leaves(n, l); } } rc }
         Some("c26_mixed_sizes_quick") => c26_mixed_sizes(2, 1500),
         Some("c26_mixed_sizes_thorough") => c26_mixed_sizes(10, 4000),
         Some("c26_multimap_quick") => c26_multimap_sweep(3, 400),
